@@ -39,6 +39,12 @@ BROKEN = [
     ("'ab&\n! c between\n   &cd'", "'abcd'"),
     ("'a''&\n&''b'", "'a''''b'"),
     ("'ab &\n\n& cd'", "'ab  cd'"),
+    # `&` followed by `!` inside the literal itself, or inside an earlier literal of the line, is text
+    ("'wait & ! rea&\n&lly'", "'wait & ! really'"),
+    ("'x&!y' // 'ab&\n   &cd'", "'x&!y' // 'abcd'"),
+    # comment lines between the pieces that do not start in column 1, or that end in `&`
+    ("'ab&\n   ! c indented\n   &cd'", "'abcd'"),
+    ("'ab&\n\t! c after tab &\n&cd'", "'abcd'"),
 ]
 
 # separators that keep the statement going: (name, text, glue)
@@ -379,7 +385,7 @@ def chunks(it, size):
 def main():
     run = core.Run(
         PID,
-        rule="case = token sequence over {code fragments, 16 literal kinds, 5 literals continued across lines} "
+        rule="case = token sequence over {code fragments, 16 literal kinds, 9 literals continued across lines} "
         "x separator per gap from {9 continuation forms, 19 statement-ending forms incl. ;, trailing !/!! comments, doc comments of all four forms (also repeating their introducing character pair in the text), "
         "own-line comment/doc/pre-doc lines, blank lines} x 5 file endings; exhaustive up to the stated length, then "
         "seeded random long sequences. Non-trivial: contains a literal or a continuation; distinct by file text.",
